@@ -146,7 +146,8 @@ def run(ctx):
                 extra = [a for a in th['axioms'] if a not in core.STDLIB_REAL_AXIOMS]
                 ctx.oblige('theorem %s depends on the stdlib real axioms at most' % th['name'], not extra, ', '.join(extra))
     # 3. the implementation at sampled points: property oracle, translator validation
-    rc, data, out = ctx.run_harness_json('c17.py', payload={'trees': trees}, timeout=1500)
+    fallback = {f: {'box': DOCUMENTED[f][0], 'n_min': 2 if f == 'brown' else 1} for f in FUNCS if f not in trees}
+    rc, data, out = ctx.run_harness_json('c17.py', payload={'trees': trees, 'fallback': fallback}, timeout=1500)
     if data is None:
         ctx.oblige('harness c17.py ran', False, out[-3000:])
         return
@@ -177,7 +178,7 @@ def run(ctx):
         ctx.report(key, what + '  [x = %s; %d sampled points of this kind]' % (c['x'], len(idxs)),
                    {'kind': 'point', 'f': c['f'], 'x': c['x'], 'cls': c['cls'], 'key': key, 'impl': c['impl'],
                     'impl_note': c['impl_note'], 'reference': c['ref'], 'doc_formula_value': c['doc'],
-                    'doc_formula': trees[c['f']]['doc_formula'], 'line': trees[c['f']]['line']})
+                    'doc_formula': trees.get(c['f'], {}).get('doc_formula'), 'line': trees.get(c['f'], {}).get('line')})
     n_or = sum(1 for c in cases if not [o for o in c['oracle'] if o['key'] not in ('csendes:zero-coordinate', 'deb2:negative-coordinate')])
     ctx.oblige('property oracle on the implementation: %d of %d sampled points pass (formula and minimum)' % (n_or, len(cases)),
                n_or == len(cases), '; '.join(sorted(k for k in by_key if k not in ('csendes:zero-coordinate', 'deb2:negative-coordinate'))))
@@ -250,11 +251,12 @@ def replay(ctx, path):
         run(ctx)
         return ctx.finish()
     text, items, errors, trees = t3_bench.generate(core.REPO)
-    if rp['f'] not in trees:
+    if rp['f'] not in trees and rp['f'] not in FUNCS:
         print('function %s cannot be translated any more: %s' % (rp['f'], errors))
         print('VIOLATION property=C17 replay=%s' % path)
         return 1
-    rc, data, out = ctx.run_harness_json('c17.py', payload={'trees': trees, 'replay': rp}, timeout=300)
+    fallback = {f: {'box': DOCUMENTED[f][0], 'n_min': 2 if f == 'brown' else 1} for f in FUNCS if f not in trees}
+    rc, data, out = ctx.run_harness_json('c17.py', payload={'trees': trees, 'fallback': fallback, 'replay': rp}, timeout=300)
     if data is None:
         print(out[-2000:])
         return 2
